@@ -211,7 +211,7 @@ if c.quick:
     subset = 4
 else:
     hists = [['W', 'W', 'F', 'W', 'M', 'F'], ['W', 'Fw', 'F', 'Mw', 'F'], ['W', 'F', 'W', 'F', 'M', 'W', 'F'], ['W', 'W', 'W', 'F', 'M', 'W', 'Fw', 'M', 'F'],
-             ['W', 'Fw', 'Fw', 'F', 'M', 'W', 'W', 'F', 'Mw', 'F', 'M'], ['W', 'Fww', 'F'], ['W', 'Fw', 'Mww', 'Fw', 'F', 'M']]
+             ['W', 'Fw', 'Fw', 'F', 'M', 'W', 'W', 'F', 'Mw', 'F', 'M'], ['W', 'Fww', 'F'], ['W', 'Fw', 'F', 'Mww', 'F', 'M']]
     subset = 6
 # one seeded variation of the data shape
 import random
@@ -226,10 +226,10 @@ with ThreadPoolExecutor(max_workers=4) as ex:
     results = list(ex.map(harness, jobs))
 stats = {}
 for r in results:
-    if not r['stats'].get('syscalls'):
-        c.inconclusive('the pkg/fs trace points are not in the tree (fixes/hook-fs.patch not applied): no file-system operation was logged')
     if r['inconclusive']:
         c.inconclusive('harness: ' + '; '.join(r['inconclusive'][:3]))
+    if not r['stats'].get('syscalls'):
+        c.inconclusive('the pkg/fs trace points are not in the tree (fixes/hook-fs.patch not applied): no file-system operation was logged')
     for k, v in r['stats'].items():
         if k in ('max_pending_effects', 'crash_classes', 'image_variants'):
             stats[k] = max(stats.get(k, 0), v)
